@@ -75,6 +75,7 @@ def dom_load(data):
     from harness.abstraction import exc_family
     st = io.BytesIO(data)
     end = 'ok'
+    closed_in_handler = True
     old = signal.signal(signal.SIGALRM, _alarm)
     signal.setitimer(signal.ITIMER_REAL, 10)
     try:
@@ -83,10 +84,13 @@ def dom_load(data):
         end = 'timeout'
     except Exception as e:       # noqa
         end = exc_family(e)
+        # looked at where a caller sees it first: in the handler, while the exception (and every frame and
+        # suspended generator its traceback refers to) is still alive
+        closed_in_handler = bool(st.closed)
     finally:
         signal.setitimer(signal.ITIMER_REAL, 0)
         signal.signal(signal.SIGALRM, old)
-    return {'end': end, 'closed': bool(st.closed)}
+    return {'end': end, 'closed': bool(st.closed) and closed_in_handler}
 
 
 class IOLog(object):
